@@ -46,10 +46,10 @@ func init() {
 		Level: "exploration",
 		Rule: "seeded SP->browser->IdP runs: sequences of 1-4 POST form productions over the four builders, relay state from a hostile pool (quotes, angle brackets, ampersands, script/comment terminators, newlines, non-ASCII, template syntax, 4 KiB) or absent, signed or unsigned documents with hostile configuration strings, endpoints with existing query parameters; " +
 			"the page is parsed with the HTML5 algorithm: DOM skeleton equal to the benign page of the same build, one POST form whose action is the flow's endpoint (as URL), message field decoding to exactly the document, RelayState present iff given and equal modulo HTML newline normalisation; the submitted document is re-verified at the IdP; distinct = shape hash (builder sequence, relay classes, signed, outcome)",
-		Directed:   c16Directed,
-		Run:        c16Run,
-		MustHit:    []string{"builder=BuildAuthBodyPost", "builder=BuildAuthBodyPostFromDocument", "builder=BuildLogoutBodyPostFromDocument", "builder=BuildLogoutResponseBodyPostFromDocument", "relay_absent", "relay_hostile", "relay_absent_then_present", "relay_present_then_absent", "signed", "unsigned"},
-		RandomRuns: map[string]int{"quick": 1200, "thorough": 50000},
+		Directed:    c16Directed,
+		Run:         c16Run,
+		MustHit:     []string{"builder=BuildAuthBodyPost", "builder=BuildAuthBodyPostFromDocument", "builder=BuildLogoutBodyPostFromDocument", "builder=BuildLogoutResponseBodyPostFromDocument", "relay_absent", "relay_hostile", "relay_absent_then_present", "relay_present_then_absent", "signed", "unsigned"},
+		RandomRuns:  map[string]int{"quick": 1200, "thorough": 50000},
 		Assumptions: []string{"NUL and invalid UTF-8 are excluded from relay states (HTML cannot carry them); CR and CRLF compare equal to LF, as the HTML input-stream preprocessing prescribes"},
 	})
 }
